@@ -17,6 +17,7 @@ const (
 )
 
 type EvalCtx struct {
+	foreign bool // evaluating a clause of a callee's contract at a call site
 	run  *FnRun
 	st   *State
 	old  *State
@@ -1225,6 +1226,45 @@ func (c *EvalCtx) evalCall(e *Expr) *V {
 				}
 			}
 			return vBool(sAnd(cs...))
+		}
+	case "failedCalls":
+		// failedCalls("callee"): number of calls made directly by this activation to callee (named as in atcall
+		// anchors) that returned a non-nil error
+		argc(1)
+		if e.Args[0].Op != "str" {
+			c.fail("failedCalls(\"callee\")")
+		}
+		if c.foreign {
+			// a callee's own count is not visible to its caller
+			return vInt(c.run.fresh("callee.fail", "Int"), types.Typ[types.Int])
+		}
+		{
+			found := false
+			for _, k := range c.run.failKeys() {
+				if k == e.Args[0].Str {
+					found = true
+				}
+			}
+			if !found {
+				c.fail("failedCalls: %s has no call site returning an error in this function", e.Args[0].Str)
+			}
+			if t, ok := st.ghost["fail:"+e.Args[0].Str]; ok {
+				return vInt(t, types.Typ[types.Int])
+			}
+			return vInt("0", types.Typ[types.Int])
+		}
+	case "callarg":
+		// callarg(i): the i-th actual argument (receiver first) of the call an atcall clause is anchored at
+		argc(1)
+		if e.Args[0].Op != "int" {
+			c.fail("callarg(i): i must be a literal")
+		}
+		{
+			v, ok := c.vars[fmt.Sprintf("$arg%d", e.Args[0].Int)]
+			if !ok {
+				c.fail("callarg(%d): no such argument here", e.Args[0].Int)
+			}
+			return v
 		}
 	case "oldlocks":
 		// oldlocks(): lock state (held, acquisition counters) of every lock that existed in the pre-state is unchanged;
